@@ -501,7 +501,12 @@ class CParser:
         self._tokens.reset(mark)
 
     def _tok_coord(self, tok: Token) -> Coord:
-        return self._coord(tok.lineno, tok.column)
+        # The file name is the one that was in effect when the token was
+        # lexed. The lexer's current file name may already be that of a later
+        # token: look-ahead can have crossed a #line directive.
+        return Coord(
+            file=self._tokens.filename_of(tok), line=tok.lineno, column=tok.column
+        )
 
     def _starts_declaration(self, tok: Optional[Token] = None) -> bool:
         tok = tok or self._peek()
@@ -2383,6 +2388,13 @@ class _TokenStream:
         self._lexer = lexer
         self._buffer: List[Optional[Token]] = []
         self._index = 0
+        # File name in effect when each buffered token was lexed, by token
+        # identity (the tokens stay alive in the buffer).
+        self._filenames: Dict[int, str] = {}
+
+    def filename_of(self, tok: Token) -> str:
+        """File name that was in effect when tok was lexed."""
+        return self._filenames.get(id(tok), self._lexer.filename)
 
     def peek(self, k: int = 1) -> Optional[Token]:
         """Peek at the k-th next token in the stream, without consuming it.
@@ -2420,6 +2432,7 @@ class _TokenStream:
             self._buffer.append(tok)
             if tok is None:
                 break
+            self._filenames[id(tok)] = self._lexer.filename
 
 
 # Declaration specifiers are represented by a dictionary with entries:
